@@ -78,6 +78,7 @@ type AwsSim struct {
 	nAttach, nTerm, nTermInAsg, nPolls map[string]int
 	fleetOwner                         map[string]string // instance id -> ASG name (from fleet replies)
 	refreshFail                        bool
+	refreshFailN                       int // scan engine: this many upcoming provider refreshes fail (then the provider is rebuilt)
 	describeAsRefresh                  int // number of upcoming DescribeAutoScalingGroups calls that are provider refreshes
 	journalSink                        *Journal
 	curIdx                             int           // scan engine: 1-based index of the node group being scanned
@@ -170,6 +171,10 @@ func (m simAutoscaling) DescribeAutoScalingGroups(in *autoscaling.DescribeAutoSc
 			s.describeAsRefresh--
 		}
 		if s.refreshFail {
+			return nil, errInjected
+		}
+		if s.refreshFailN > 0 {
+			s.refreshFailN--
 			return nil, errInjected
 		}
 		out := &autoscaling.DescribeAutoScalingGroupsOutput{}
